@@ -17,6 +17,15 @@ pub fn dump(tcx: TyCtxt<'_>) -> J {
     let mut out = vec![];
     for ldid in tcx.hir_body_owners() {
         let kind = tcx.def_kind(ldid.to_def_id());
+        if matches!(kind, DefKind::Const { .. } | DefKind::AssocConst { .. } | DefKind::Static { .. }) {
+            // initialiser of a constant: lets the evaluator see through `const PREFIX: &str = "..."`
+            let mut j = dump_fn(tcx, ldid);
+            if let J::Obj(ref mut v) = j {
+                v.push(("item", J::s("const")));
+            }
+            out.push(j);
+            continue;
+        }
         if !matches!(kind, DefKind::Fn | DefKind::AssocFn) {
             continue;
         }
